@@ -45,6 +45,28 @@ CFG = {
              "the two promoted endpoints) decode exactly after writer o closest; bc7_writer_opaque - alpha endpoints that "
              "are all ones (with p-bits 1) give alpha 255 at every pixel; bc7_block_stats_opaque - BlockStats::opaque() "
              "iff every alpha is 255. "
+             "The discrete core of the BC1-BC5 encoders (EncBc15.lean: bc1.rs IndexList / AlphaMap / transparent_index / "
+             "create_endpoints / with_indexes / closest scan and the encoder's own binary32 palette; bc4.rs IndexList / "
+             "new_all / INDEX_MAP / new_closest / new_inter6 / inter6_to_inter4 / with_indexes / Inter6Palette / "
+             "Inter4Palette / single_color; bc.rs concat_blocks, channel wiring, get_bc1_options / get_bc3_options / "
+             "get_bc4_options) is modelled and proved for ALL inputs: bc1_writer_roundtrip - every mode, every pair of valid "
+             "5:6:5 colours in any order, every alpha map and per-pixel closest choice: no debug_assert fires and "
+             "Bc.decodeBlock of the 8 written bytes is, at every pixel and precision, entry index_p of the palette over the "
+             "ORDERED pair create_endpoints(e0, e1) in the encoder's mode (swap and tie-break included; the code has no "
+             "index re-mapping because the palette is built after the ordering), Portable as BC1, and behind any 8 bytes "
+             "the P4 block decodes to the same entries under the always-four-colour decoder and is Portable for all six "
+             "BC2/BC3-family formats; bc4_writer_roundtrip - every pair of endpoint bytes, every sixteen 3-bit indexes "
+             "(set x 16 or new_all), BC4 U/S, both halves of BC5 U/S, BC3 alpha / RXGB / BC3n red in front of the colour "
+             "block: the decoder returns the quantised entry index_p of the eight- resp. six-value palette of the pair, "
+             "and new_inter6 / new_inter4 / new_closest establish exactly the order of the palette the encoder built "
+             "(SNORM: never swaps, never writes 0x80); bc2_writer_roundtrip - explicit alpha nibble layout = decoder layout "
+             "for all sixteen 4-bit values, whole BC2 block; bc1_palette_f32_rounds_to_decoder - the encoder's binary32 "
+             "palette (n5::f32 / n6::f32, c0*(2/3)+c1*(1/3), (c0+c1)*0.5) rounds to nearest to exactly the decoder's 8-bit "
+             "entry and is within 2^-22 of the exact entry for ALL 32x32 and 64x64 endpoint pairs, both modes, every "
+             "selectable entry (kernel-evaluated); bc4_index_map_spec - INDEX_MAP[j] is the index of the j-th point "
+             "between the endpoints, the four-interpolant palette uses the index as position; "
+             "bc4_palette_f32_partial - the BC4 binary32 palettes round to the decoder's entries on the sub-domain hi = max "
+             "or hi = lo + 1 (lo >= 1); the other pairs are evaluated by the compiled model only (no failure). "
              "NOT modelled: the f32/Oklab endpoint search, refinement, BC7 "
              "partition/p-bit/endpoint CHOICE (their results are parameters of Enc7), dithering. Those are explored: dds::encode on generated images, every "
              "emitted block checked for Portable, decoded by dds::decode, by a Rust reference decoder written from "
@@ -64,6 +86,16 @@ CFG = {
             "dds::verif_hook::bc7_write / bc7_closest (notes/hook_bc7_writer.patch) the writers and closest_* are also "
             "compared directly on every mode x partition with all-anchors-set index lists (cases w7h / cl7h; without the "
             "hook these cases are not generated); Drv/C13.lean fieldsOfBlock / orientations (parsers of the tie); "
+            "EncBc15.lean (hand-written model of the BC1-BC5 block writers, index lists, endpoint constructors, option "
+            "plumbing, the encoders' own binary32 palettes and closest searches) is tied on every run: w15 - every emitted "
+            "BC1-BC5 block is parsed with the decoder-side readers and re-created by the model's constructors and writers "
+            "(fails for a BC2/BC3 colour half with colour0 <= colour1, a SNORM endpoint 0x80, equal BC4 endpoints other "
+            "than level 0); cl15 - for RGBA8 images and blocks inside the image every 8-byte half whose index selection "
+            "is deterministic (colour: Uniform metric, no colour dithering; BC4-type: its dither switch off, taken from "
+            "the model's option plumbing) is re-derived from its own endpoints and the original pixels (get_single_color, "
+            "create_endpoints, binary32 palette, closest / blend7 -> INDEX_MAP / Inter4 scan, single_color, with_indexes) "
+            "and must be reproduced byte for byte; trusted there: glam Vec3A lane order of distance_squared, one rounding "
+            "per f32 operator; ConvF32.lean / Conv.lean (software binary32, n5/n6/n8::f32, s8::uf32; tied in C04); "
             "F32.lean (software binary32) for the f32 expressions on these paths, proved equal to the closed forms on "
             "the whole 8-bit domain; the reading of 'within the endpoint quantisation step' on decoded 8-bit "
             "values (bound = largest gap between adjacent decoded endpoint levels; two-colour blocks: the same "
@@ -95,7 +127,9 @@ CFG = {
                    "partition / rotation / index-selection / p-bits / alpha endpoint fields read back from every emitted "
                    "block together with the constraint the discrete rules put on them (modes tried; p-bits (1,1) of "
                    "opaque subsets in modes 6 / 7; admissible rotations; endpoints of a constant separated channel in "
-                   "modes 4 / 5) and the whole block re-derived by the BC7 writer model Enc7.emit (tokens w7, cl7); the harness "
+                   "modes 4 / 5) and the whole block re-derived by the BC7 writer model Enc7.emit (tokens w7, cl7), and for BC1-BC5 every block "
+                   "re-created by the model writers and every deterministic 8-byte half re-derived from its own endpoints and "
+                   "the original pixels (tokens w15, cl15); the harness "
                    "computes the same from dds::decode and Rust code (own bit reader; hashes of the emitted bytes) and the "
                    "equal hook checks that every emitted block meets the model's constraint; (3) oracle on freshly emitted "
                    "blocks: Portable; library decoder = reference decoder; single-colour floor (step bound; exact "
@@ -121,7 +155,11 @@ CFG = {
                      "compress_mode4 C3A2 shortcut, compress_color_separate_alpha_with_rotation single-alpha branch, "
                      "channel_round/floor/ceil); lean/DdsModel/DdsModel/Enc7.lean (bc7.rs BitStream, IndexList, "
                      "Compressed::mode0..7, promote/p_promote/interpolate*, WEIGHTS_2/3/4, closest_rgb/rgba/alpha, "
-                     "Rotation::apply, BlockStats; bcn_data.rs sort_block); F32.lean; decoders: Bc.lean, BcSpec.lean, Bc7.lean, Bc7Spec.lean "
+                     "Rotation::apply, BlockStats; bcn_data.rs sort_block); lean/DdsModel/DdsModel/EncBc15.lean (bc1.rs "
+                     "IndexList, AlphaMap, transparent_index, create_endpoints, with_indexes, closest, Palette::new_p4/new_p3, "
+                     "get_single_color; bc4.rs IndexList, EndPoints constructors, Inter6Palette, Inter4Palette, block_closest, "
+                     "single_color; bc.rs concat_blocks, get_bc1/bc3/bc4_options, per-format closures); ConvF32.lean, Conv.lean; "
+                     "F32.lean; decoders: Bc.lean, BcSpec.lean, Bc7.lean, Bc7Spec.lean "
                      "(C03, C03x)"],
 }
 
@@ -158,7 +196,9 @@ def equal(a, b):
     `<the same fields read with its reader>@<what its discrete rules allow for the input block>`; the fields must be
     textually equal and every block must meet its rule (membership, as for the `plan` sets of C16).  The tokens after it
     (`w7`: hash of every BC7 block re-written by `Enc7.write`; `cl7`: hash of the block `Enc7.emit` re-derives from the
-    emitted parameters and the original pixels) must be textually equal.
+    emitted parameters and the original pixels; `w15`: hash of every BC1-BC5 block re-written by the model's constructors and
+    writers from what the decoder-side readers return; `cl15`: hashes of the 8-byte halves the model re-derives from their
+    own endpoints and the original pixels - binary32 palette and closest search of bc1.rs / bc4.rs) must be textually equal.
     `no-hook`: a direct-tie case (`w7h`, `cl7h`; only generated when `dds::verif_hook::bc7_write` exists) read from a
     corpus / replay file while the library under test has no hook - skipped, not compared."""
     if a == b:
@@ -166,7 +206,7 @@ def equal(a, b):
     if a == "no-hook":
         return True
     ta, tb = a.split(" "), b.split(" ")
-    if len(ta) != len(tb) or len(ta) != 9 or ta[:6] != tb[:6] or ta[7:] != tb[7:] or "@" not in tb[6]:
+    if len(ta) != len(tb) or len(ta) != 11 or ta[:6] != tb[:6] or ta[7:] != tb[7:] or "@" not in tb[6]:
         return False
     obs, rules = tb[6].split("@", 1)
     if obs != ta[6]:
